@@ -1,41 +1,68 @@
 """C05 - sub-hypergraph extraction and copy: correspondence of lean/Hgxv/Model/C05.lean with
 Hypergraph / DirectedHypergraph (subhypergraph, subhypergraph_by_orders, get_edges(subhypergraph=True),
 subhypergraph_largest_component, copy) and independent property oracles on the implementation."""
+import collections
 import copy as _copy
 import itertools
+import random as _random
 import signal
+import zlib
 from fractions import Fraction
 
 import hgxv
 
 RULE = ("sources: random histories (add_node/add_edge with re-insertion in permuted node order, remove_edge, set_weight, "
         "set_*_metadata, set_attr_*, set_incidence_metadata / in-place edits of an incidence dict, add_empty_edge, "
-        "set_hypergraph_metadata, set_attr_to_hypergraph_metadata) on 3-6 nodes (int, shifted-int or str labels), weighted and "
+        "set_hypergraph_metadata, set_attr_to_hypergraph_metadata) on 3-6 nodes, weighted and "
         "unweighted, Hypergraph and DirectedHypergraph, with isolated nodes, singleton hyperedges, node, hyperedge, incidence "
-        "and hypergraph metadata, empty edges; 'extended' sources whose history also has remove_node(keep_edges), clear, "
-        "add_nodes (oracles only, no model); 'component layout' sources: 2 or 3 connected components (w.r.t. no filter, "
+        "and hypergraph metadata, empty edges; label universes of every comparable kind (small ints, exactly 0..n-1, ints beyond "
+        "the small-int cache, negative ints, ints around 2**53 / 2**63 / 2**64, run-time strings incl. '' and one-letter ones, "
+        "non-integer and huge floats, ints mixed with floats, tuples), EVERY call receives freshly constructed equal label objects; "
+        "half of the directed sources hold hyperedges whose source and target sets overlap (self-loop, feedback hyperedge, identical "
+        "sides) or with an empty side, a fifth of the undirected ones the node-less hyperedge (); a tenth of the weighted sources "
+        "has integer weights beyond 2**60; 'extended' sources whose history also has remove_node(keep_edges), clear, "
+        "add_nodes (oracles only, no model); 'large' sources (20-70 nodes, hyperedges up to size 17, a sample of selections); "
+        "'component layout' sources: 2 or 3 connected components (w.r.t. no filter, "
         "size 2 or size 3) of prescribed nearly equal sizes (k,k+1 / k,k / k,k,k+1 / ...), EVERY order of first appearance of "
         "the components in the node listing, bridges of other sizes, a temporary bridge removed again, with the largest "
         "component for no filter / size 1..4 / order 0..3 and the induced sub-hypergraph on every component; a quarter of the "
-        "random sources is reached through copy() in the middle of the history with the original mutated afterwards; per source EVERY node "
-        "subset (as a shuffled list, some with repetitions, some as tuple or set), EVERY subset of sizes {1..5} as sizes= and as orders= with both "
-        "keep_nodes (plus lists with repeated sizes), EVERY (order|size in none,1..5 / 0..4, up_to, keep_isolated_nodes) "
+        "random sources is reached through copy() in the middle of the history with the original mutated afterwards, a fifth is "
+        "asked every query and extraction once in the middle of its history; per source EVERY node "
+        "subset (shuffled, some with repetitions; as list, tuple, set, frozenset, dict, dict keys, numpy array, deque, some with numpy "
+        "scalars), EVERY subset of sizes {1..5} as sizes= and as orders= with both "
+        "keep_nodes (plus lists with repeated sizes; as list, tuple, set, frozenset, dict keys, numpy array, range, generator, iterator), "
+        "EVERY (order|size in none,1..5 / 0..4, up_to, keep_isolated_nodes) "
         "combination of get_edges(subhypergraph=True) plus size 0 / order -1, the largest component for no filter / size 0..3 / "
-        "order 0..2, copy() of 2 % of the results, and copy() followed by random mutations of copy and original (equality = "
+        "order 0..2; every call in one of three spellings (all keywords, defaults left out, positional), collections handed in are "
+        "overwritten after the call; after all selections the source is changed in place by 1-3 calls (half of the time calls that keep "
+        "the numbers of nodes and hyperedges) and 14 of the selections are asked again; copy() of 2 % of the results, 3 % of the results "
+        "take a further history side by side with a hand-built object of the same content; copy() followed by random mutations of copy "
+        "and original (equality = "
         "every public getter incl. incidence metadata, empty edges, matrices, components, serialisation views; same "
         "accepted/rejected calls as a never-copied object; copy of the mutated copy); a small malformed stream (order and size together, neither "
         "orders nor sizes, a node outside the hypergraph) is compared with the model only.  A case = (source, selection); "
         "distinct by canonical content + selection; non-trivial when the selection keeps >= 1 and drops >= 1 hyperedge "
         "(copy: both mutation lists change something)")
-ASSUMPTIONS = ["hyperedges are duplicate-free node tuples; directed hyperedges have disjoint non-empty sides",
-               "labels are mapped to their rank in sorted order, metadata keys/values and weights (multiples of 1/4) to tokens before they reach the model",
-               "requested node lists are subsets of the source's nodes (the quantifier); lists outside are only compared with the model's rejection"]
+ASSUMPTIONS = ["hyperedges of Hypergraph are duplicate-free node tuples (C01's quantifier: add_edge links a repeated node twice, remove_edge "
+               "unlinks it once) and each side of a directed hyperedge is duplicate-free; the two sides of a directed hyperedge MAY overlap "
+               "or be empty (add_edge accepts them, every extraction and copy() handles them; size = len(source) + len(target) as "
+               "get_sizes() / get_orders() report it, a node on both sides counts twice)",
+               "DirectedHypergraph.remove_node is never applied to a node that is source AND target of one hyperedge: on the unchanged "
+               "tree it raises half-way (the hyperedge is removed once as source hyperedge, then looked for again as target hyperedge); "
+               "C02's quantifier has disjoint sides, the histories here skip exactly these removals",
+               "labels are mapped to their rank in sorted order, metadata keys/values and weights (multiples of 1/4, or integer multiples of "
+               "2**60+1) to tokens before they reach the model; labels of one source are mutually comparable (add_edge sorts)",
+               "node selections are re-iterable collections: subhypergraph() walks its argument three times, a one-shot iterator is not an "
+               "input of the unchanged code (lists of orders / sizes are walked once: generators and iterators are used there)",
+               "requested node lists are subsets of the source's nodes (the quantifier); lists outside are only compared with the model's rejection",
+               "listing ORDER of the result is compared with the model only (the property does not speak about it): an order-only difference is "
+               "reported as a correspondence break twice per run, afterwards contents only are compared and the search for a failing input goes on"]
 TRUSTED = ["largest_component(size, order) is taken as returned by utils/cc.py (model parameter `comp`); the harness checks with its own "
            "union-find that it is a connected component of maximum size under the filter",
            "copy.deepcopy semantics (the model's copy is the identity on values)",
            "empty edges have no public getter: their names are observed by add_empty_edge on a stdlib deepcopy of the object "
            "(a duplicate name raises), their metadata through the attribute _empty_edges where it exists"]
-BUDGET_S = {"quick": 100, "thorough": 1500}
+BUDGET_S = {"quick": 70, "thorough": 1500}
 
 MD_KEYS = ["a", "b", "c"]
 VAL_POOL = [7, "red", 2.5, [1, 2], {"z": 1}, None, "", -3]
@@ -83,20 +110,99 @@ def gen_md(rng, p_none=0.4):
     return [[a, rng.randrange(len(VAL_POOL))] for a in sorted(rng.sample(range(3), rng.randint(0, 2)))]
 
 
+STR_POOL = ["n" + chr(97 + i) for i in range(12)] + ["A", "B1", "zz", "", "a", "node 7", "\u00fc", "10", "9", "Zz top"]
+FLOAT_POOL = [-2.5, 0.5, 1.5, 2.25, 1e-9, 3.75, 1e300, 257.5, -1e-3, 0.1, 7.0, 1e16, 2.0 ** 70]
+MIX_POOL = [1, 2.5, 3, 300.75, 1000, -7, 0.25, 2 ** 60, 4.0, 258]
+BIG_BASES = [2 ** 53 - 3, 2 ** 63 - 3, 2 ** 64 - 2, 10 ** 30, -(2 ** 63) - 2]
+
+
 def gen_labels(rng, n):
+    """a universe of n mutually comparable labels, sorted (a label reaches the model as its rank).  Every comparable
+    kind of object a user can hold: small ints (identity = equality in CPython), exactly 0..n-1 (label = rank), ints
+    beyond the small-int cache, negative ints, ints around 2**53 / 2**63 / 2**64, run-time strings (with '' and
+    one-letter strings), non-integer and huge floats, ints mixed with floats, tuples"""
     r = rng.random()
-    if r < 0.4:
+    if r < 0.16:
         return sorted(rng.sample(range(0, 30), n))
-    if r < 0.6:
-        return sorted(rng.sample(range(100, 140), n))
-    return sorted(rng.sample(["n" + chr(97 + i) for i in range(12)] + ["A", "B1", "zz"], n))
+    if r < 0.22:
+        return list(range(n))
+    if r < 0.40:
+        return sorted(rng.sample(range(257, 3000), n))
+    if r < 0.46:
+        return sorted(rng.sample(range(-400, 400), n))
+    if r < 0.54:
+        return sorted(rng.sample([b + i for b in BIG_BASES for i in range(6)], n))
+    if r < 0.72:
+        return sorted(rng.sample(STR_POOL, n))
+    if r < 0.81:
+        return sorted(rng.sample(FLOAT_POOL, n))
+    if r < 0.87:
+        return sorted(rng.sample(MIX_POOL, n))
+    if rng.random() < 0.5:
+        return sorted(rng.sample([(i, j) for i in (1, 2, 300) for j in (0, 5, 1000, 7)], n))
+    return sorted(rng.sample([(a, j) for a in ("x", "yy") for j in (1, 2, 3, 400, 5000, 6)], n))
 
 
-def gen_raw(rng, kind, n):
+def label_class(L):
+    ts = {type(x).__name__ for x in L}
+    if ts == {"int"}:
+        if all(-5 <= x <= 256 for x in L):
+            return "small_int"
+        return "big_int" if any(abs(x) >= 2 ** 53 - 8 for x in L) else "int_beyond_cache"
+    return "_".join(sorted(ts))
+
+
+def norm_label(x):
+    """labels of a case that went through JSON: a tuple label came back as a list"""
+    return tuple(norm_label(e) for e in x) if isinstance(x, (list, tuple)) else x
+
+
+def fresh(x):
+    """a freshly constructed object EQUAL to the label x (never the object the harness or the hypergraph holds): `is`
+    and `==` coincide for small ints and literals only"""
+    if isinstance(x, bool):
+        return x
+    if isinstance(x, int):
+        return int(str(x))
+    if isinstance(x, float):
+        return float(repr(x))
+    if isinstance(x, str):
+        return "".join(list(x)) if len(x) > 1 else x
+    if isinstance(x, tuple):
+        return tuple(fresh(e) for e in x)
+    return x
+
+
+def gen_raw(rng, kind, n, ov=0.0, top=5):
+    """a raw hyperedge over ranks.  With probability `ov` one of the shapes outside the everyday ones: directed - source
+    and target OVERLAP (self-loop ((x,),(x,)), feedback ((a,),(a,b)), identical sides) or a side is empty; undirected -
+    the node-less hyperedge ()"""
     if kind == "u":
-        size = min(n, rng.choice([1, 1, 2, 2, 2, 3, 3, 4, 5]))
+        if ov and rng.random() < ov * 0.15:
+            return []
+        size = min(n, rng.choice([1, 1, 2, 2, 2, 3, 3, 4, 5] + ([x for x in (6, 7, 8, 9) if x < top] + [top, top] if top > 5 else [])))
         return rng.sample(range(n), size)
-    size = min(n, rng.choice([2, 2, 2, 3, 3, 4, 5]))
+    if ov and rng.random() < ov:
+        x = rng.random()
+        if x < 0.25:
+            a = rng.randrange(n)
+            return [[a], [a]]
+        if x < 0.37:
+            a = rng.sample(range(n), min(n, rng.randint(2, 3)))
+            return [list(a), list(reversed(a))]
+        if x < 0.50:
+            side = rng.sample(range(n), min(n, rng.randint(1, 3)))
+            return [[], side] if rng.random() < 0.5 else [side, []]
+        if x < 0.53:
+            return [[], []]
+        common = rng.sample(range(n), min(n, rng.choice([1, 1, 2])))
+        a = [r for r in rng.sample(range(n), min(n, rng.randint(0, 2))) if r not in common]
+        b = [r for r in rng.sample(range(n), min(n, rng.randint(0, 2))) if r not in common]
+        s_, t_ = common + a, common + b
+        rng.shuffle(s_)
+        rng.shuffle(t_)
+        return [s_, t_]
+    size = min(n, rng.choice([2, 2, 2, 3, 3, 4, 5] + ([x for x in (6, 7, 8, 9) if x < top] + [top, top] if top > 5 else [])))
     nodes = rng.sample(range(n), size)
     k = rng.randint(1, size - 1)
     return [nodes[:k], nodes[k:]]
@@ -117,7 +223,7 @@ def perm_raw(rng, kind, key):
     return [a, b]
 
 
-def gen_aux_op(rng, kind, n, keys, incs):
+def gen_aux_op(rng, kind, n, keys, incs, ov=0.0, top=5):
     """one operation on incidence metadata / empty edges / hypergraph-level metadata; `incs` = (raw key, node) pairs
     that received incidence metadata so far (the undirected class stores under the tuple AS GIVEN)"""
     r = rng.random()
@@ -125,7 +231,7 @@ def gen_aux_op(rng, kind, n, keys, incs):
         if keys and rng.random() < 0.85:
             key = rng.choice(keys)
         else:
-            key = canon_raw(kind, gen_raw(rng, kind, n))
+            key = canon_raw(kind, gen_raw(rng, kind, n, ov, top))
         raw = perm_raw(rng, kind, key)
         ms = list(key) if kind == "u" else list(key[0]) + list(key[1])
         node = rng.choice(ms) if ms and rng.random() < 0.8 else rng.randrange(n)
@@ -143,7 +249,7 @@ def gen_aux_op(rng, kind, n, keys, incs):
     return ["attrh", rng.randrange(3), rng.randrange(len(VAL_POOL))]
 
 
-def gen_ops(rng, kind, weighted, n, present, length, extended=False, p_aux=0.16, incs=None):
+def gen_ops(rng, kind, weighted, n, present, length, extended=False, p_aux=0.16, incs=None, ov=0.0, top=5):
     """random mutations; `present` = set of canonical keys currently in the object (kept up to date as if all
     valid ops are accepted - used only to bias the generator)"""
     ops = []
@@ -153,14 +259,14 @@ def gen_ops(rng, kind, weighted, n, present, length, extended=False, p_aux=0.16,
         r = rng.random()
         keys = sorted(present)
         if rng.random() < p_aux:
-            ops.append(gen_aux_op(rng, kind, n, keys, incs))
+            ops.append(gen_aux_op(rng, kind, n, keys, incs, ov, top))
         elif r < 0.12:
             ops.append(["addnode", rng.randrange(n), gen_md(rng, 0.3)])
         elif r < 0.55 or not keys:
             if keys and rng.random() < 0.3:
                 raw = perm_raw(rng, kind, rng.choice(keys))       # re-insertion
             else:
-                raw = gen_raw(rng, kind, n)
+                raw = gen_raw(rng, kind, n, ov, top)
             if weighted:
                 w = rng.randint(1, 12) if rng.random() < 0.93 else None
             else:
@@ -169,11 +275,11 @@ def gen_ops(rng, kind, weighted, n, present, length, extended=False, p_aux=0.16,
             if weighted or w in (None, 4):
                 present.add(canon_raw(kind, raw))
         elif r < 0.65:
-            key = rng.choice(keys) if rng.random() < 0.9 else canon_raw(kind, gen_raw(rng, kind, n))
+            key = rng.choice(keys) if rng.random() < 0.9 else canon_raw(kind, gen_raw(rng, kind, n, ov, top))
             ops.append(["rmedge", perm_raw(rng, kind, key)])
             present.discard(key)
         elif r < 0.73:
-            key = rng.choice(keys) if rng.random() < 0.9 else canon_raw(kind, gen_raw(rng, kind, n))
+            key = rng.choice(keys) if rng.random() < 0.9 else canon_raw(kind, gen_raw(rng, kind, n, ov, top))
             w = rng.randint(1, 12) if weighted else rng.choice([4, 4, 4, 8])
             ops.append(["setw", perm_raw(rng, kind, key), w])
         elif r < 0.80:
@@ -196,23 +302,54 @@ def gen_ops(rng, kind, weighted, n, present, length, extended=False, p_aux=0.16,
     return ops
 
 
-def gen_source(rng):
-    kind = "u" if rng.random() < 0.62 else "d"
-    n = rng.choice([3, 4, 5, 5, 6, 6])
+def gen_source(rng, n=None, length=None, labels=None, top=5, kind=None):
+    kind = kind or ("u" if rng.random() < 0.58 else "d")
+    n = n or rng.choice([3, 4, 5, 5, 6, 6])
     weighted = rng.random() < 0.6
+    # half of the directed sources (a fifth of the undirected ones) also hold the unusual shapes, see gen_raw
+    ov = rng.choice([0.25, 0.5]) if rng.random() < (0.5 if kind == "d" else 0.2) else 0.0
     hist = []
     for r in rng.sample(range(n), rng.randint(1, n)):
         if rng.random() < 0.7:
             hist.append(["addnode", r, gen_md(rng, 0.25)])
     incs = []
-    hist += gen_ops(rng, kind, weighted, n, set(), rng.randint(3, 14), p_aux=rng.choice([0.0, 0.15, 0.3]), incs=incs)
+    hist += gen_ops(rng, kind, weighted, n, set(), length or rng.randint(3, 14), p_aux=rng.choice([0.0, 0.15, 0.3]),
+                    incs=incs, ov=ov, top=top)
     rng.shuffle(hist)
-    case = {"kind": kind, "weighted": weighted, "labels": gen_labels(rng, n), "history": hist, "incs": incs}
-    if hist and rng.random() < 0.25:
+    case = {"kind": kind, "weighted": weighted, "labels": (labels or gen_labels)(rng, n), "history": hist, "incs": incs, "ov": ov}
+    if weighted and rng.random() < 0.12:
+        case["wscale"] = True
+    x = rng.random()
+    if hist and x < 0.25:
         case["copy_at"] = rng.randrange(len(hist))
         case["junk"] = gen_ops(rng, kind, weighted, n, set(canon_raw(kind, o[1]) for o in hist if o[0] == "addedge"),
-                               rng.randint(2, 6), extended=True, p_aux=0.3, incs=list(incs))
+                               rng.randint(2, 6), extended=True, p_aux=0.3, incs=list(incs), ov=ov)
+    elif hist and x < 0.45:
+        # every query and every extraction is asked once in the middle of the history (results dropped): whatever the
+        # object remembers of an answer is out of date when the selections of the check are made
+        case["warm_at"] = rng.randint(max(0, len(hist) - 5), len(hist) - 1)
     return case
+
+
+def gen_silent_ops(rng, case, S, length):
+    """calls that change what an extraction must return but neither the number of nodes nor the number of hyperedges"""
+    kind = case["kind"]
+    keys = sorted(rank_keys(case, S))
+    n = len(case["labels"])
+    ops = []
+    for _ in range(length):
+        r = rng.random()
+        if keys and r < 0.35:
+            ops.append(["setw", perm_raw(rng, kind, rng.choice(keys)), rng.randint(1, 12) if S[0] else 4])
+        elif keys and r < 0.6:
+            ops.append(["setem", perm_raw(rng, kind, rng.choice(keys)), gen_md(rng, 0) or [[0, rng.randrange(len(VAL_POOL))]]])
+        elif r < 0.8:
+            ops.append(["setnm", rng.randrange(n), gen_md(rng, 0) or [[1, rng.randrange(len(VAL_POOL))]]])
+        elif keys and r < 0.9 and S[0]:
+            ops.append(["addedge", perm_raw(rng, kind, rng.choice(keys)), rng.randint(1, 12), gen_md(rng)])   # re-insertion: weights add up
+        else:
+            ops.append(["attrn", rng.randrange(n), rng.randrange(3), rng.randrange(len(VAL_POOL))])
+    return ops
 
 
 def gen_source_extended(rng):
@@ -222,7 +359,7 @@ def gen_source_extended(rng):
     n = len(case["labels"])
     hist = list(case["history"])
     extra = gen_ops(rng, case["kind"], case["weighted"], n, set(), rng.randint(3, 8), extended=True,
-                    incs=case["incs"])
+                    incs=case["incs"], ov=case.get("ov", 0.0))
     for op in extra:
         if op[0] == "clear" and rng.random() < 0.6:
             continue
@@ -324,15 +461,42 @@ def py_md(md):
     return None if md is None else {MD_KEYS[a]: _copy.deepcopy(VAL_POOL[v]) for a, v in md}
 
 
-def py_w(q):
-    return None if q is None else (q // 4 if q % 8 == 0 else q / 4)
+WSCALE = 2 ** 60 + 1
 
 
-def py_key(case, raw):
-    L = case["labels"]
+def eff_w(case, q):
+    """the weight (in quanta) a call really sends: under a weight scale no call leaves the weight out (the default
+    weight 1 is not on the scaled grid)"""
+    return 4 if q is None and case.get("wscale") else q
+
+
+def py_w(q, case=None):
+    """quanta -> the weight handed to the implementation (ints where possible, else floats).  case["wscale"]: all
+    weights are INTEGERS far beyond 2**53 (q * (2**60 + 1)): sums stay exact, a detour through floats does not"""
+    if q is None:
+        return None
+    if case is not None and case.get("wscale"):
+        return q * WSCALE
+    return q // 4 if q % 8 == 0 else q / 4
+
+
+def op_bits(op):
+    """presentation bits of a history call: a function of the call's text, so that every rebuild of the history (the
+    never-copied reference of a copy round, a replay) presents it the same way"""
+    return zlib.crc32(repr(op).encode())
+
+
+def lab(case, r):
+    return fresh(case["labels"][r])
+
+
+def py_key(case, raw, bits=0):
+    """the hyperedge as handed to the implementation: FRESH label objects; tuple or list (of tuples or lists)"""
+    cont = (tuple, list, tuple, tuple)[bits & 3]
     if case["kind"] == "u":
-        return tuple(L[r] for r in raw)
-    return (tuple(L[r] for r in raw[0]), tuple(L[r] for r in raw[1]))
+        return cont(lab(case, r) for r in raw)
+    side = (tuple, tuple, list, tuple)[(bits >> 2) & 3]
+    return cont([side(lab(case, r) for r in raw[0]), side(lab(case, r) for r in raw[1])])
 
 
 def new_object(case):
@@ -340,30 +504,37 @@ def new_object(case):
     return (Hypergraph if case["kind"] == "u" else DirectedHypergraph)(weighted=case["weighted"])
 
 
+def on_both_sides(h, x):
+    """x is source AND target of one hyperedge of the DirectedHypergraph h"""
+    st, es = guard(h.get_edges)
+    return st == "ok" and any(isinstance(e, tuple) and len(e) == 2 and x in e[0] and x in e[1] for e in es)
+
+
 def apply_py(case, h, op):
-    L = case["labels"]
     t = op[0]
+    b = op_bits(op)
     if t == "addnode":
-        return guard(h.add_node, L[op[1]], py_md(op[2]))
+        return guard(h.add_node, lab(case, op[1]), py_md(op[2]))
     if t == "addedge":
-        return guard(h.add_edge, py_key(case, op[1]), py_w(op[2]), py_md(op[3]))
+        return guard(h.add_edge, py_key(case, op[1], b), py_w(eff_w(case, op[2]), case), py_md(op[3]))
     if t == "rmedge":
-        return guard(h.remove_edge, py_key(case, op[1]))
+        return guard(h.remove_edge, py_key(case, op[1], b))
     if t == "setw":
-        return guard(h.set_weight, py_key(case, op[1]), py_w(op[2]))
+        return guard(h.set_weight, py_key(case, op[1], b), py_w(op[2], case))
     if t == "setnm":
-        return guard(h.set_node_metadata, L[op[1]], py_md(op[2]))
+        return guard(h.set_node_metadata, lab(case, op[1]), py_md(op[2]))
     if t == "setem":
-        return guard(h.set_edge_metadata, py_key(case, op[1]), py_md(op[2]))
+        return guard(h.set_edge_metadata, py_key(case, op[1], b), py_md(op[2]))
     if t == "attrn":
-        return guard(h.set_attr_to_node_metadata, L[op[1]], MD_KEYS[op[2]], _copy.deepcopy(VAL_POOL[op[3]]))
+        return guard(h.set_attr_to_node_metadata, lab(case, op[1]), MD_KEYS[op[2]], _copy.deepcopy(VAL_POOL[op[3]]))
     if t == "attre":
-        return guard(h.set_attr_to_edge_metadata, py_key(case, op[1]), MD_KEYS[op[2]], _copy.deepcopy(VAL_POOL[op[3]]))
+        return guard(h.set_attr_to_edge_metadata, py_key(case, op[1], b), MD_KEYS[op[2]], _copy.deepcopy(VAL_POOL[op[3]]))
     if t == "setim":
-        return guard(h.set_incidence_metadata, py_key(case, op[1]), L[op[2]], py_md(op[3]))
+        # (tuples only: the undirected class stores the incidence entry under the edge object as given)
+        return guard(h.set_incidence_metadata, py_key(case, op[1]), lab(case, op[2]), py_md(op[3]))
     if t == "attri":
         def edit():
-            h.get_incidence_metadata(py_key(case, op[1]), L[op[2]])[MD_KEYS[op[3]]] = _copy.deepcopy(VAL_POOL[op[4]])
+            h.get_incidence_metadata(py_key(case, op[1]), lab(case, op[2]))[MD_KEYS[op[3]]] = _copy.deepcopy(VAL_POOL[op[4]])
         return guard(edit)
     if t == "addempty":
         return guard(h.add_empty_edge, EMPTY_NAMES[op[1]], py_md(op[2]))
@@ -372,11 +543,15 @@ def apply_py(case, h, op):
     if t == "attrh":
         return guard(h.set_attr_to_hypergraph_metadata, MD_KEYS[op[1]], _copy.deepcopy(VAL_POOL[op[2]]))
     if t == "rmnode":
-        return guard(h.remove_node, L[op[1]], op[2])
+        if case["kind"] == "d" and on_both_sides(h, case["labels"][op[1]]):
+            # DirectedHypergraph.remove_node raises half-way for such a node on the unchanged tree (outside C02's
+            # quantifier "disjoint sides"): not part of any history here
+            return ("skip", None)
+        return guard(h.remove_node, lab(case, op[1]), op[2])
     if t == "clear":
         return guard(h.clear)
     if t == "addnodes":
-        return guard(h.add_nodes, [L[r] for r in op[1]])
+        return guard(h.add_nodes, [lab(case, r) for r in op[1]])
     raise ValueError(t)
 
 
@@ -399,7 +574,7 @@ def model_line(case, slot, op):
     if t == "addnode":
         return f"{k} addnode {slot} {op[1]} {w_md(op[2])}"
     if t == "addedge":
-        return f"{k} addedge {slot} {w_key(k, op[1])} {w_opt(op[2])} {w_md(op[3])}"
+        return f"{k} addedge {slot} {w_key(k, op[1])} {w_opt(eff_w(case, op[2]))} {w_md(op[3])}"
     if t == "rmedge":
         return f"{k} rmedge {slot} {w_key(k, op[1])}"
     if t == "setw":
@@ -496,11 +671,21 @@ def snap(h):
 
 
 def incidence_ok(kind, h, s):
-    """every hyperedge of the content is incident exactly once to each of its nodes (public listing)"""
+    """every hyperedge of the content is incident exactly once to each of its nodes (public listing); DirectedHypergraph:
+    once as a source hyperedge of each source node, once as a target hyperedge of each target node, and
+    get_incident_edges = the two listings one after the other (a node on both sides meets the hyperedge twice)"""
     def f():
+        srt = lambda xs: sorted(xs, key=repr)  # noqa: E731
         for n in s[1]:
-            want = sorted((k for k in s[2] if n in members(kind, k)), key=repr)
-            got = sorted(h.get_incident_edges(n), key=repr)
+            if kind == "u":
+                want = srt(k for k in s[2] if n in k)
+            else:
+                ws, wt = srt(k for k in s[2] if n in k[0]), srt(k for k in s[2] if n in k[1])
+                gs, gt = srt(h.get_source_edges(n)), srt(h.get_target_edges(n))
+                if gs != ws or gt != wt:
+                    return f"get_source_edges / get_target_edges({n!r}) = {gs} / {gt}, hyperedges with it on that side: {ws} / {wt}"
+                want = srt(ws + wt)
+            got = srt(h.get_incident_edges(n))
             if got != want:
                 return f"get_incident_edges({n!r}) = {got}, hyperedges containing it: {want}"
         if h.num_nodes() != len(s[1]) or len(h) != len(s[2]):
@@ -517,7 +702,7 @@ def canon(x):
         return ("s", tuple(sorted((canon(v) for v in x), key=repr)))
     if isinstance(x, (list, tuple)):
         return ("l", tuple(canon(v) for v in x))
-    if isinstance(x, float) and x == int(x):
+    if isinstance(x, float) and x.is_integer():
         return ("f", int(x))
     try:
         import numpy as np
@@ -717,7 +902,7 @@ def tok_snap(case, s):
         kk = tuple(rk.get(x, repr(x)) for x in k) if case["kind"] == "u" else \
             (tuple(rk.get(x, repr(x)) for x in k[0]), tuple(rk.get(x, repr(x)) for x in k[1]))
         try:
-            q = Fraction(w) * 4
+            q = Fraction(w) / WSCALE if case.get("wscale") else Fraction(w) * 4
             q = int(q) if q.denominator == 1 else repr(w)
         except Exception:  # noqa: BLE001
             q = repr(w)
@@ -776,10 +961,7 @@ def all_selections(rng, case, n_nodes_present, tier_full=True):
                 rng.shuffle(lst)
                 if lst and rng.random() < 0.1:
                     lst.append(rng.choice(lst))
-                sel = {"f": "induced", "nodes": lst}
-                if rng.random() < 0.12:
-                    sel["as"] = rng.choice(["tuple", "set"])      # other containers than a list
-                sels.append(sel)
+                sels.append({"f": "induced", "nodes": lst})
         for r in range(6):
             for sub in itertools.combinations([1, 2, 3, 4, 5], r):
                 lst = list(sub)
@@ -789,7 +971,7 @@ def all_selections(rng, case, n_nodes_present, tier_full=True):
                     sels.append({"f": "byorders", "orders": [s - 1 for s in lst], "keep": keep})
         for _ in range(6):
             lst = [rng.randint(0, 4) for _ in range(rng.randint(2, 5))]    # repetitions, size 0 / order -1 (nothing has it)
-            sels.append({"f": "bysizes", "sizes": lst, "keep": rng.random() < 0.5, "as": rng.choice(["list", "tuple"])})
+            sels.append({"f": "bysizes", "sizes": lst, "keep": rng.random() < 0.5})
             sels.append({"f": "byorders", "orders": [s - 1 for s in lst], "keep": rng.random() < 0.5})
         for flt in ({}, {"size": 2}, {"size": 3}, {"order": 1}, {"order": 2}, {"order": 0}, {"size": 1}, {"size": 0}):
             sels.append({"f": "lcc", **flt})
@@ -809,7 +991,49 @@ def all_selections(rng, case, n_nodes_present, tier_full=True):
         sels.append({"f": "edges", "size": 0, "up_to": up_to, "keep": rng.random() < 0.5})
         sels.append({"f": "edges", "order": -1, "up_to": up_to, "keep": rng.random() < 0.5})
     sels.append({"f": "edges", "size": 2, "order": 1, "up_to": False, "keep": True, "malformed": True})
+    return with_style(rng, sels)
+
+
+def with_style(rng, sels):
+    for sel in sels:
+        sel["sty"] = rng.randrange(1 << 30)       # seed of the call's presentation, see call_selection
     return sels
+
+
+def sample_selections(rng, case, present, S, k=14):
+    """large sources: a sample of every kind of selection (node subsets of every density, lists of sizes up to the
+    largest size present, (order|size, up_to, keep) around the sizes present, the largest component)"""
+    kind = case["kind"]
+    ps = sorted({len(members(kind, e)) for e in S[2]}) or [1]          # the sizes present
+    top = ps[-1]
+    pool = ps + ps + [0, top + 1, rng.randint(0, top + 1)]
+    sels = []
+    if kind == "u":
+        for _ in range(k):
+            dens = rng.choice([0.1, 0.3, 0.5, 0.8, 0.95, 1.0])
+            lst = [r for r in present if rng.random() < dens]
+            rng.shuffle(lst)
+            if lst and rng.random() < 0.2:
+                lst.append(rng.choice(lst))
+            sels.append({"f": "induced", "nodes": lst})
+        for _ in range(k):
+            lst = [rng.choice(pool) for _ in range(rng.randint(1, 5))]
+            if rng.random() < 0.5:
+                sels.append({"f": "bysizes", "sizes": lst, "keep": rng.random() < 0.5})
+            else:
+                sels.append({"f": "byorders", "orders": [x - 1 for x in lst], "keep": rng.random() < 0.5})
+        for flt in ({}, {"size": 2}, {"size": 3}, {"order": 1}, {"size": top}):
+            sels.append({"f": "lcc", **flt})
+    for _ in range(2 * k):
+        x = rng.choice(pool)
+        sel = {"f": "edges", "up_to": rng.random() < 0.5, "keep": rng.random() < 0.5}
+        if rng.random() < 0.5:
+            sel["size"] = x
+        else:
+            sel["order"] = x - 1
+        sels.append(sel)
+    sels.append({"f": "edges", "up_to": False, "keep": False})
+    return with_style(rng, sels)
 
 
 def layout_selections(rng, case, present, S):
@@ -820,7 +1044,7 @@ def layout_selections(rng, case, present, S):
     rk = {x: i for i, x in enumerate(L)}
     for flt in ({}, {"size": 2}, {"size": 3}):
         for comp in components(case["kind"], S, flt):
-            lst = [rk[x] for x in comp]
+            lst = sorted(rk[x] for x in comp)
             rng.shuffle(lst)
             sel = {"f": "induced", "nodes": lst}
             if sel not in sels:
@@ -828,32 +1052,168 @@ def layout_selections(rng, case, present, S):
     for s_ in (1, 2, 3):
         sels.append({"f": "bysizes", "sizes": [s_], "keep": rng.random() < 0.5})
         sels.append({"f": "edges", "size": s_, "up_to": rng.random() < 0.5, "keep": rng.random() < 0.5})
-    return sels
+    return with_style(rng, sels)
+
+
+NODE_CONTAINERS = ["list"] * 9 + ["tuple", "tuple", "set", "set", "frozenset", "dict", "dict_keys", "ndarray", "deque"]
+SIZE_CONTAINERS = ["list"] * 8 + ["tuple", "tuple", "set", "frozenset", "dict_keys", "ndarray", "generator", "iterator", "range"]
+
+
+def np_ok(x):
+    return isinstance(x, (int, float, str)) and not isinstance(x, bool) and (not isinstance(x, int) or abs(x) < 2 ** 62)
+
+
+def present_nodes(case, sel, pr):
+    """the node selection as handed to subhypergraph(): fresh equal label objects in a re-iterable collection of a drawn
+    type (subhypergraph() walks its argument three times: one-shot iterators are not an input of the unchanged code);
+    returns (argument, ranks in the order in which the collection yields them)"""
+    L = case["labels"]
+    ranks = list(sel["nodes"])
+    kind = sel.get("as") or pr.choice(NODE_CONTAINERS)
+    labels = [L[r] for r in ranks]
+    if kind == "ndarray" and not (labels and all(np_ok(x) for x in labels) and len({type(x) for x in labels}) == 1):
+        kind = "list"
+    objs = [fresh(x) for x in labels]
+    if kind == "list" and pr.random() < 0.08 and all(np_ok(x) and not isinstance(x, str) for x in labels):
+        import numpy as np
+        objs = [(np.int64(x) if isinstance(x, int) else np.float64(x)) if pr.random() < 0.6 else x for x in objs]
+    rk = {x: i for i, x in enumerate(L)}
+    if kind == "tuple":
+        arg = tuple(objs)
+    elif kind in ("set", "frozenset"):
+        arg = set(objs) if kind == "set" else frozenset(objs)
+    elif kind in ("dict", "dict_keys"):
+        arg = {x: pr.randrange(3) for x in objs}
+        if kind == "dict_keys":
+            arg = arg.keys()
+    elif kind == "ndarray":
+        import numpy as np
+        arg = np.array(objs)
+    elif kind == "deque":
+        arg = collections.deque(objs)
+    else:
+        arg = list(objs)
+    sel["_cont"] = kind
+    return arg, [rk[x.item() if hasattr(x, "item") and not isinstance(x, (int, float, str)) else x] for x in arg]
+
+
+def present_sizes(vals, sel, pr):
+    """a list of sizes / orders as handed to subhypergraph_by_orders(): any iterable (it is walked once);
+    returns (argument, values in the order in which it yields them)"""
+    kind = sel.get("as") or pr.choice(SIZE_CONTAINERS)
+    vals = [int(str(v)) for v in vals]
+    if kind == "range" and not (vals and vals == list(range(vals[0], vals[0] + len(vals)))):
+        kind = "list"
+    if kind == "tuple":
+        return tuple(vals), vals
+    if kind in ("set", "frozenset"):
+        arg = set(vals) if kind == "set" else frozenset(vals)
+        return arg, list(arg)
+    if kind == "dict_keys":
+        arg = dict.fromkeys(vals)
+        return arg.keys(), list(arg)
+    if kind == "ndarray":
+        import numpy as np
+        return np.array(vals, dtype=np.int64), vals
+    if kind == "generator":
+        return (v for v in vals), vals
+    if kind == "iterator":
+        return iter(list(vals)), vals
+    if kind == "range":
+        return range(vals[0], vals[0] + len(vals)), vals
+    if pr.random() < 0.08:
+        import numpy as np
+        return [np.int64(v) if pr.random() < 0.6 else v for v in vals], vals
+    return list(vals), vals
+
+
+def scribble_in(arg):
+    """overwrite a collection that was handed in (after the call returned): the result must not be built on it"""
+    try:
+        if isinstance(arg, list):
+            arg[:] = ["junk-in"]
+        elif isinstance(arg, (set, dict)):
+            arg.clear()
+        elif isinstance(arg, collections.deque):
+            arg.clear()
+            arg.append("junk-in")
+        elif hasattr(arg, "fill") and arg.dtype.kind in "if" and arg.size:
+            arg.fill(arg.max() + 1)
+    except Exception:  # noqa: BLE001
+        pass
+
+
+def num_arg(v, pr):
+    """an order / size: a fresh int, now and then a numpy integer"""
+    if v is None:
+        return None
+    if pr.random() < 0.06:
+        import numpy as np
+        return np.int64(v)
+    return int(str(v))
+
+
+def flag_arg(b, pr):
+    return (1 if b else 0) if pr.random() < 0.05 else bool(b)
 
 
 def call_selection(case, h, sel):
-    L = case["labels"]
+    """one extraction call.  The presentation of the call (label objects, collection types, positional / keyword /
+    left-out arguments) is drawn from sel["sty"], so a replay repeats it"""
     f = sel["f"]
+    pr = _random.Random(sel.get("sty", 0))
+    style = pr.randrange(3) if "sty" in sel else 0        # 0: every argument by keyword, 1: defaults left out, 2: positional
     if f == "induced":
-        arg = [L[r] for r in sel["nodes"]]
-        if sel.get("as") == "tuple":
-            arg = tuple(arg)
-        elif sel.get("as") == "set":
-            arg = set(arg)
-            rk = {x: i for i, x in enumerate(L)}
-            sel["_iter"] = [rk[x] for x in arg]          # the order in which the code will meet the nodes
-        return guard(h.subhypergraph, arg)
-    if f == "bysizes" and "orders" not in sel:
-        cont = tuple if sel.get("as") == "tuple" else list
-        return guard(h.subhypergraph_by_orders, sizes=None if sel["sizes"] is None else cont(sel["sizes"]), keep_nodes=sel["keep"])
+        arg, order = present_nodes(case, sel, pr)
+        sel["_iter"] = order                               # the order in which the code will meet the nodes
+        out = guard(h.subhypergraph, arg) if style != 1 else guard(h.subhypergraph, nodes=arg)
+        scribble_in(arg)
+        return out
     if f in ("byorders", "bysizes"):
-        return guard(h.subhypergraph_by_orders, orders=list(sel["orders"]),
-                     sizes=(list(sel["sizes"]) if sel.get("sizes") is not None else None), keep_nodes=sel["keep"])
+        args = {}
+        for name in ("orders", "sizes"):
+            if sel.get(name) is not None:
+                args[name], sel["_" + name] = present_sizes(sel[name], sel, pr)
+            else:
+                args[name] = None
+        keep = flag_arg(sel["keep"], pr)
+        if sel.get("malformed") or style == 0:
+            out = guard(h.subhypergraph_by_orders, orders=args["orders"], sizes=args["sizes"], keep_nodes=keep)
+        elif style == 1:
+            kw = {k: v for k, v in args.items() if v is not None}
+            if not sel["keep"] or pr.random() < 0.5:
+                kw["keep_nodes"] = keep
+            out = guard(h.subhypergraph_by_orders, **kw)
+        else:
+            out = guard(h.subhypergraph_by_orders, args["orders"], args["sizes"], keep)
+        for a in args.values():
+            scribble_in(a)
+        return out
     if f == "edges":
-        return guard(h.get_edges, order=sel.get("order"), size=sel.get("size"), up_to=sel["up_to"], subhypergraph=True,
-                     keep_isolated_nodes=sel["keep"])
+        order, size = num_arg(sel.get("order"), pr), num_arg(sel.get("size"), pr)
+        up_to, keep = flag_arg(sel["up_to"], pr), flag_arg(sel["keep"], pr)
+        if sel.get("malformed") or style == 0:
+            return guard(h.get_edges, order=order, size=size, up_to=up_to, subhypergraph=True, keep_isolated_nodes=keep)
+        if style == 1:
+            kw = {"subhypergraph": True}
+            if order is not None:
+                kw["order"] = order
+            if size is not None:
+                kw["size"] = size
+            if sel["up_to"] or pr.random() < 0.5:
+                kw["up_to"] = up_to
+            if sel["keep"] or pr.random() < 0.5:
+                kw["keep_isolated_nodes"] = keep
+            return guard(h.get_edges, **kw)
+        return guard(h.get_edges, order, size, up_to, True, keep)
     if f == "lcc":
-        return guard(h.subhypergraph_largest_component, size=sel.get("size"), order=sel.get("order"))
+        order, size = num_arg(sel.get("order"), pr), num_arg(sel.get("size"), pr)
+        if style == 0:
+            return guard(h.subhypergraph_largest_component, size=size, order=order)
+        if style == 1:
+            kw = {k: v for k, v in (("size", size), ("order", order)) if v is not None}
+            return guard(h.subhypergraph_largest_component, **kw)
+        return guard(h.subhypergraph_largest_component, size, order)
     raise ValueError(f)
 
 
@@ -923,8 +1283,8 @@ def model_selection(case, sel, comp_ranks=None):
     if f == "lcc":
         return f"{k} lcc 0 1 {ints(comp_ranks)}"
     if f in ("bysizes", "byorders"):
-        os_ = sel.get("orders")
-        ss = sel.get("sizes")
+        os_ = sel.get("_orders", sel.get("orders"))
+        ss = sel.get("_sizes", sel.get("sizes"))
         return f"{k} byorders 0 1 {'n' if os_ is None else ints(os_)} {'n' if ss is None else ints(ss)} {int(sel['keep'])}"
     return f"{k} edgessub 0 1 {w_opt(sel.get('order'))} {w_opt(sel.get('size'))} {int(sel['up_to'])} {int(sel['keep'])}"
 
@@ -932,10 +1292,31 @@ def model_selection(case, sel, comp_ranks=None):
 # ------------------------------------------------------------------------------------------
 # one source: build, all selections, copy rounds
 
+def warm(case, h):
+    """ask every query and every extraction once and drop the answers; case["warm_sels"]: selections to ask as well"""
+    kind = case["kind"]
+    full_digest(kind, h, deep=1)
+    for sel in case.get("warm_sels", []):
+        call_selection(case, h, dict(sel))
+    calls = [lambda: h.get_edges(subhypergraph=True), lambda: h.get_edges(subhypergraph=True, keep_isolated_nodes=True)]
+    for s_ in (0, 1, 2, 3, 4):
+        for up_to in (False, True):
+            calls.append(lambda s_=s_, up_to=up_to: h.get_edges(size=s_, up_to=up_to, subhypergraph=True))
+            calls.append(lambda s_=s_, up_to=up_to: h.get_edges(order=s_, up_to=up_to, subhypergraph=True, keep_isolated_nodes=True))
+    calls.append(h.copy)
+    if kind == "u":
+        calls += [lambda: h.subhypergraph(list(h.get_nodes())), lambda: h.subhypergraph(list(h.get_nodes())[:2]),
+                  lambda: h.subhypergraph_by_orders(sizes=[1, 2, 3, 4, 5]), lambda: h.subhypergraph_by_orders(orders=[1], keep_nodes=False),
+                  h.subhypergraph_largest_component, lambda: h.subhypergraph_largest_component(size=2)]
+    for c in calls:
+        guard(c)
+
+
 def build(case, ops=None):
     """realise a history.  With case["copy_at"] = k the object is replaced by its copy() after k operations and the
     original is mutated by case["junk"] afterwards: the rest of the history (and everything the check does) then runs on
-    a COPY whose original changed - for the model a copy is the same value, so nothing changes there"""
+    a COPY whose original changed - for the model a copy is the same value, so nothing changes there.
+    With case["warm_at"] = k everything is asked once after k operations (see `warm`)"""
     h = new_object(case)
     outs = []
     for i, op in enumerate(case["history"] if ops is None else ops):
@@ -945,6 +1326,8 @@ def build(case, ops=None):
                 for j in case.get("junk", []):
                     apply_py(case, h, j)
                 h = c
+        if case.get("warm_at") == i:
+            warm(case, h)
         outs.append(apply_py(case, h, op)[0])
     return h, outs
 
@@ -969,9 +1352,21 @@ def rank_keys(case, S):
     return out
 
 
+ORDER_ONLY = [0]
+
+
+def enough(ctx):
+    """the search goes on while only the MODEL comparison differs (a change of the listing order differs on every
+    harmless call): it ends after 5 failing inputs (or 3 hangs)"""
+    return len(ctx.violations) >= 5 or TIMEOUTS[0] >= 3
+
+
 def check_source(ctx, drv, case, only=None):
     """never lets an exception of the implementation (or caused by an unexpected answer of it) escape: on the
     unchanged tree none occurs, so under a changed tree it is an observation about the implementation"""
+    case = {**case, "labels": [norm_label(x) for x in case["labels"]]}
+    if len(ctx.disagreements) >= 5:
+        drv = None                      # the model comparison has said what it had to say; the oracles go on
     try:
         _check_source(ctx, drv, case, only)
     except RuntimeError as e:
@@ -1008,20 +1403,33 @@ def _check_source(ctx, drv, case, only=None):
         rng = ctx.rng
         if case.get("layout"):
             sels = layout_selections(rng, case, present, S)
+        elif case.get("large"):
+            sels = sample_selections(rng, case, present, S)
         else:
             sels = all_selections(rng, case, present)
         for sel in sels:
             if not sel.get("malformed") and rng.random() < 0.02:
                 sel["copy_result"] = True
+            if not sel.get("malformed") and rng.random() < 0.03:
+                sel["result_lives"] = gen_ops(rng, kind, S[0], len(L), set(), rng.randint(2, 5), p_aux=0.0, ov=case.get("ov", 0.0))
         pk = rank_keys(case, S)
         incs = [list(x) for x in case.get("incs", [])]
 
         def ops(ext=False):
+            out = _ops(ext)
+            if incs and rng.random() < 0.5:
+                # an in-place edit of an incidence dict that exists: the only call through which a copy that shares
+                # the per-incidence dicts with its original shows
+                raw, node = rng.choice(incs)
+                out.insert(rng.randint(0, len(out)), ["attri", raw, node, rng.randrange(3), rng.randrange(len(VAL_POOL))])
+            return out
+
+        def _ops(ext=False):
             return gen_ops(rng, kind, S[0], len(L), pk if rng.random() < 0.7 else set(), rng.randint(2 if ext else 1, 6),
-                           extended=ext, p_aux=rng.choice([0.1, 0.35]), incs=list(incs))
+                           extended=ext, p_aux=rng.choice([0.1, 0.35]), incs=list(incs), ov=case.get("ov", 0.0))
         copies = [{"f": "copy", "ops_cp": ops(), "ops_orig": ops(),
                    "order": [rng.random() < 0.5 for _ in range(12)]}
-                  for _ in range((1 if rng.random() < 0.3 else 0) if case.get("layout") else 2)]
+                  for _ in range((1 if rng.random() < 0.3 else 0) if case.get("layout") or case.get("large") else 2)]
         if not case.get("layout"):
             copies.append({"f": "copy", "extended": True, "ops_cp": ops(True), "ops_orig": ops(True), "order": []})
     else:
@@ -1062,6 +1470,22 @@ def _check_source(ctx, drv, case, only=None):
                 if dd:
                     ctx.violation(full, f"copy() of the result of {sel} is not equal to it: {dd}")
             ctx.count("copies_of_results")
+        if st == "ok" and got is not None and sel.get("result_lives"):
+            # the extracted object is a full object: it takes a further history like an object built by hand with the
+            # same content (nodes and hyperedges inserted in the result's listing order)
+            why = lives_like_twin(case, r, got, sel["result_lives"])
+            if why:
+                ctx.violation(full, f"the result of {sel} mutated by {sel['result_lives']} differs from a hand-built object "
+                                    f"with the result's content under the same calls: {why}")
+            dd = digest_diff(before, full_digest(kind, h))
+            if dd:
+                ctx.violation(full, f"mutating the result of {sel} changed the source: {dd}")
+            ctx.count("results_mutated")
+            st2, r = call_selection(case, h, sel)            # a fresh result for the oracles below
+            got = snap(r) if st2 == "ok" else None
+            if got is None or got[0] == "exc":
+                ctx.violation(full, f"{sel}: the second call raised / cannot be observed")
+                got, st = None, "exc"
         if not malformed:
             if st != "ok":
                 if not (sel["f"] == "lcc" and not S[1]):       # largest component of the empty hypergraph: max() of nothing
@@ -1090,8 +1514,11 @@ def _check_source(ctx, drv, case, only=None):
                               sum(1 for n in got[1] if n in S[1] and got[1][n] is S[1][n]))
                     ctx.count("shared_edge_metadata_objects",
                               sum(1 for k in got[2] if k in S[2] and got[2][k][1] is S[2][k][1]))
-        ctx.case(skey + repr(sorted(sel.items())), nontrivial, sample=full if nontrivial else None)
+        ctx.case(skey + repr(sorted((k, v) for k, v in sel.items() if k != "sty" and not k.startswith("_") and k != "result_lives")),
+                 nontrivial, sample=full if nontrivial else None)
         ctx.count("sel_" + sel["f"] + ("_malformed" if malformed else ""))
+        if sel.get("_cont"):
+            ctx.count("node_selection_as_" + sel["_cont"])
         if st != "ok":
             ctx.count("rejected_selections")
         if case.get("layout") and sel["f"] == "lcc" and comp is not None:
@@ -1111,7 +1538,7 @@ def _check_source(ctx, drv, case, only=None):
         lines.append(f"{kind} q 0")
         want.append(tok_snap(case, S))
         tags.append(("source-after", full))
-        if ctx.too_many() or TIMEOUTS[0] >= 3:
+        if enough(ctx):
             break
 
     dd = digest_diff(deep_before, full_digest(kind, h, deep=2))
@@ -1119,24 +1546,89 @@ def _check_source(ctx, drv, case, only=None):
         ctx.violation({**case, "sel": None}, f"the extractions changed the source: {dd}")
     for cp in copies:
         check_copy(ctx, case, h, S, cp, lines, want, tags, skey)
+    if only is None and not enough(ctx) and (not case.get("layout") or ctx.rng.random() < 0.25):
+        # ask, change the object in place, ask again: the same selections on the same object after a few further
+        # calls (half of the time calls that leave the cheap signatures - numbers of nodes / hyperedges - as they are)
+        rng = ctx.rng
+        asked = [{k: v for k, v in sel.items() if not k.startswith("_") and k not in ("copy_result", "result_lives")}
+                 for sel in sels if not sel.get("malformed")]
+        again = rng.sample(asked, min(len(asked), 14))
+        if rng.random() < 0.5:
+            more = gen_silent_ops(rng, case, S, rng.randint(1, 3))
+        else:
+            more = gen_ops(rng, kind, S[0], len(L), rank_keys(case, S), rng.randint(1, 3), p_aux=0.1,
+                           incs=[list(x) for x in case.get("incs", [])], ov=case.get("ov", 0.0))
+        if again and more:
+            hist = list(case["history"])
+            case2 = {**case, "history": hist + more, "warm_at": len(hist), "warm_sels": again, "again": True}
+            ctx.count("sources_asked_again_after_a_change")
+            _check_source(ctx, drv, case2, only=[dict(sel) for sel in again])
+    if only is not None and case.get("again"):
+        return _finish_model(ctx, drv, case, lines, want, tags, modelled)
     ctx.count("sources_" + ("layout" if case.get("layout") else "extended" if case.get("extended") else "modelled"))
+    if case.get("large"):
+        ctx.count("sources_large")
+    if case.get("warm_at") is not None:
+        ctx.count("sources_warmed_in_mid_history")
+    if case.get("wscale"):
+        ctx.count("sources_with_integer_weights_beyond_2^60")
+    ctx.count("labels_" + label_class(L))
+    if kind == "d":
+        ov = sum(1 for k in S[2] if set(k[0]) & set(k[1]))
+        ctx.count("directed_sources_with_overlapping_sides" if ov else "directed_sources_disjoint_sides")
+        ctx.count("directed_hyperedges_with_overlapping_sides", ov)
+        ctx.count("directed_hyperedges_with_an_empty_side", sum(1 for k in S[2] if not k[0] or not k[1]))
+    elif () in S[2]:
+        ctx.count("sources_with_the_nodeless_hyperedge")
 
+    _finish_model(ctx, drv, case, lines, want, tags, modelled)
+
+
+def _finish_model(ctx, drv, case, lines, want, tags, modelled):
+    kind = case["kind"]
     if drv is None or not modelled:
         return
     ans = drv.batch(lines)
     for ln, a, w, (tag, full) in zip(lines, ans, want, tags):
         got = a if isinstance(w, str) else parse_model(kind, a)
         same = got == w
-        if same and not isinstance(w, str) and w[0] != "exc":
+        if same and not isinstance(w, str) and w[0] != "exc" and ORDER_ONLY[0] < 2:
             # the model mirrors the construction order of the code: listings must also agree as sequences
-            # (incidence metadata and empty edges are compared as sequences already)
+            # (incidence metadata and empty edges are compared as sequences already).  The property does not speak
+            # about listing order: such a difference is reported twice per run, afterwards contents only are compared
+            # so that the search for a failing input goes on
             same = list(got[1]) == list(w[1]) and list(got[2]) == list(w[2])
             if not same:
+                ORDER_ONLY[0] += 1
                 ctx.count("order_only_differences")
+                ctx.disagree(full if full is not None else {**case, "sel": None},
+                             f"[{tag}] (listing order only) model answers {a!r} to {ln!r}, implementation gives {w!r}")
+                continue
         if not same:
             ctx.disagree(full if full is not None else {**case, "sel": None},
                          f"[{tag}] model answers {a!r} to {ln!r}, implementation gives {w!r}")
             break
+
+
+def lives_like_twin(case, r, got, ops):
+    """apply `ops` to the result r and to a twin built by hand from the content `got` of r; compare every public query
+    (level 0: no internal ids).  Structural calls only - the metadata dicts of a result are those of the source by design"""
+    kind = case["kind"]
+    twin = new_object({**case, "weighted": got[0]})
+    for n, md in got[1].items():
+        twin.add_node(n, _copy.deepcopy(md))
+    for k, (w, md) in got[2].items():
+        twin.add_edge(k, w if got[0] else None, _copy.deepcopy(md))
+    def dig(o):      # without the queries that show internal ids
+        return {k: v for k, v in full_digest(kind, o).items() if k not in ("adj", "adj_s", "adj_t", "edge_list", "empty_private")}
+    dd = digest_diff(dig(twin), dig(r))
+    if dd:
+        return "before any call: " + dd
+    outs_r = [apply_py(case, r, op)[0] for op in ops if op[0] not in ("attrn", "attre")]
+    outs_t = [apply_py(case, twin, op)[0] for op in ops if op[0] not in ("attrn", "attre")]
+    if outs_r != outs_t:
+        return f"accepted / rejected calls {outs_r} vs {outs_t}"
+    return digest_diff(dig(twin), dig(r))
 
 
 def check_copy(ctx, case, h, S, cp, lines, want, tags, skey):
@@ -1248,6 +1740,30 @@ FIXED_SOURCES = [
     {"kind": "d", "weighted": False, "labels": [3, 5, 8, 13], "incs": [[[[1], [0, 2]], 2]],
      "history": [["addedge", [[1], [2, 0]], None, [[0, 0]]], ["addedge", [[3], [1]], None, None],
                  ["setim", [[1], [0, 2]], 2, [[0, 6]]], ["setim", [[3], [1]], 0, []], ["sethm", [[1, 1]]], ["attrh", 2, 0]]},
+    # node identifiers as they come out of an edge-list file: every record parsed on its own, a node of several
+    # hyperedges is several equal int objects (ints beyond the small-int cache); the same with run-time strings
+    {"kind": "u", "weighted": True, "labels": [1001, 1002, 1003, 1004, 1005, 1006, 1007],
+     "history": [["addedge", [0, 1], 6, [[0, 0]]], ["addedge", [0, 2, 3], 10, [[0, 1]]], ["addedge", [3, 4], 14, None],
+                 ["addedge", [5, 6], 18, None], ["addedge", [0], 22, [[1, 2]]], ["setnm", 0, [[2, 1]]]]},
+    {"kind": "u", "weighted": False, "labels": ["gene-a", "gene-b", "gene-c", "gene-d", "x"],
+     "history": [["addedge", [1, 0], None, [[0, 0]]], ["addedge", [2, 1, 3], None, None], ["addedge", [3, 0], None, None],
+                 ["addnode", 4, [[1, 1]]], ["addedge", [1], None, None]]},
+    # directed hyperedges whose source and target overlap (feedback hyperedge, identical sides, self-loop), an empty
+    # side; sizes as get_sizes() reports them: 3, 2, 4, 2, 3, 1
+    {"kind": "d", "weighted": True, "labels": [1, 2, 3, 4, 5, 6, 7, 8], "ov": 0.5,
+     "history": [["addnode", 7, [[0, 1]]], ["addedge", [[0], [0, 1]], 4, None], ["addedge", [[2], [3]], 8, [[1, 1]]],
+                 ["addedge", [[1, 4], [4, 1]], 12, None], ["addedge", [[5], [5]], 16, [[2, 2]]],
+                 ["addedge", [[0, 1], [2]], 20, None], ["addedge", [[], [6]], 24, None], ["setnm", 5, [[0, 3]]]]},
+    {"kind": "d", "weighted": False, "labels": ["p", "q", "rr", "ss"], "ov": 0.5,
+     "history": [["addedge", [[0], [0]], None, [[0, 0]]], ["addedge", [[0, 1], [1, 2]], None, None],
+                 ["addedge", [[3], [3, 0]], None, None], ["addedge", [[2], [1]], None, [[1, 4]]], ["rmedge", [[0], [0]]],
+                 ["addedge", [[1], [1]], None, None]]},
+    # integer weights far beyond 2**53 (q * (2**60 + 1)): exact as ints, not as floats
+    {"kind": "u", "weighted": True, "labels": [300, 301, 302, 303], "wscale": True,
+     "history": [["addedge", [0, 1], 3, None], ["addedge", [1, 2, 3], 5, [[0, 0]]], ["addedge", [1, 0], 7, None], ["addedge", [3], 1, None]]},
+    # the node-less hyperedge () has size 0 (order -1)
+    {"kind": "u", "weighted": True, "labels": [0, 1, 2], "ov": 0.5,
+     "history": [["addedge", [], 6, [[0, 2]]], ["addedge", [0, 1], 10, None], ["addnode", 2, None], ["addedge", [1], 4, None]]},
 ]
 
 
@@ -1264,19 +1780,38 @@ def layout_grid(rng, rounds, all_modes):
     return out
 
 
+def gen_source_large(rng, kind=None):
+    """SIZE is a dimension: 20-70 nodes (sizes around powers of two included), one to three hyperedges per node"""
+    n = rng.choice([20, 31, 32, 33, 48, 63, 64, 65, 70])
+    return {**gen_source(rng, n=n, length=rng.randint(n, 3 * n), labels=gen_labels_large, top=rng.choice([9, 12, 17]), kind=kind), "large": True}
+
+
+def gen_labels_large(rng, n):
+    r = rng.random()
+    if r < 0.3:
+        return sorted(rng.sample(range(0, 3 * n), n))
+    if r < 0.6:
+        return sorted(rng.sample(range(257, 100000), n))
+    if r < 0.8:
+        return sorted("v%03d" % i for i in rng.sample(range(1000), n))
+    return sorted(rng.sample([i / 8 for i in range(1, 2000, 3)] + [2 ** 63 + i for i in range(100)], n))
+
+
 def run(ctx):
     drv = ctx.driver() if ctx.model_available else None
     n = ctx.scale(26, 520)
     n_ext = ctx.scale(6, 120)
+    n_large = ctx.scale(2, 30)
     grid = layout_grid(ctx.rng, ctx.scale(1, 4), ctx.tier != "quick")
 
     def stop():
-        return ctx.too_many() or TIMEOUTS[0] >= 3 or (ctx.time_left() is not None and ctx.time_left() < 15)
+        return enough(ctx) or (ctx.time_left() is not None and ctx.time_left() < 15)
     for case in FIXED_SOURCES:
         if not stop():
             check_source(ctx, drv, case)
     # interleave the three classes so that a run cut short by the budget has seen all of them
     gi = 0
+    n_large_done = 0
     per = max(1, -(-len(grid) // max(1, n)))
     for i in range(n):
         if stop():
@@ -1284,6 +1819,9 @@ def run(ctx):
         check_source(ctx, drv, gen_source(ctx.rng))
         if i < n_ext * 4 and i % 4 == 0 and not stop():
             check_source(ctx, drv, gen_source_extended(ctx.rng))
+        if i % max(1, n // n_large) == 1 and not stop():
+            n_large_done += 1
+            check_source(ctx, drv, gen_source_large(ctx.rng, "ud"[n_large_done % 2]))
         for sizes, perm, mode in grid[gi:gi + per]:
             if stop():
                 break
